@@ -12,6 +12,7 @@ BASE = {
     "InitUserPin": '"P2"',
     "Labels": '{"a"}',
     "LoginPins": '{"P1", "P2", "P3"}',
+    "Templates": '{{}, {"a"}}',
 }
 INV_SESS = ["TypeOK", "NoROwithSO", "PublicIfNoSession", "HandlesDisjoint", "HandlesIssued"]
 INV_OBJ = INV_SESS + ["PrivateHandleNeedsUser", "PrivateSessionObjNeedsUser", "OneHandlePerObject",
@@ -39,6 +40,7 @@ def run_graphs(ctx, lib, graphs, obs, classes, invariants, maxlen=60, jobs=8):
     edges_total = edges_cov = 0
     accepted = executions = events = 0
     samples = []
+    okc = {}
     for name, c in graphs:
         res, g = pipeline.model_check(ctx, "MC_Core", name, c, invariants=invariants, properties=PROPS, dump=True)
         tot_states += res.distinct
@@ -57,8 +59,16 @@ def run_graphs(ctx, lib, graphs, obs, classes, invariants, maxlen=60, jobs=8):
             accepted += st.accepted
             executions += st.executions
             events += st.events
+            for k2, v2 in st.okcount.items():
+                c2 = okc.setdefault(k2, [0, 0])
+                c2[0] += v2[0]
+                c2[1] += v2[1]
             if st.samples and len(samples) < 3:
                 samples.append(st.samples[0])
+    ctx.coverage["calls_ok_failed_by_action"] = okc
+    never_ok = sorted(k2 for k2, v2 in okc.items() if v2[0] == 0 and k2 not in ("Reset",))
+    if never_ok:
+        ctx.notes.append("actions that never succeeded on the implementation in this run: " + ", ".join(never_ok))
     return dict(states=tot_states, transitions=tot_trans, edges_total=edges_total, edges_replayed=edges_cov,
                 accepted=accepted, executions=executions, events=events, samples=samples)
 
@@ -155,3 +165,99 @@ def c11(ctx):
     ctx.assumptions += ["object identity is read back through CKA_ID / CKA_APPLICATION tags written by the driver",
                         "object handles of a token without any open session are probed through a session of the other "
                         "token; if no session is open at all they are not probed (the specification says they are dead)"]
+
+
+PROPS_C01 = PROPS + ["DeniedYieldsNothing", "TokenWriteNeedsRW", "NoPrivateCreateOutsideUser"]
+
+
+def c01(ctx):
+    lib = build.libpath(build.build("ossl"))
+    quick = ctx.tier == "quick"
+    fam = '{"sess", "obj", "copy", "attr", "find", "use", "make"}'
+    wide = consts(Acts=fam, MaxH="4", MaxO="2" if quick else "3", LoginPins='{"P1", "P2"}')
+    res, _ = pipeline.model_check(ctx, "MC_Core", "c01-wide", wide, invariants=INV_OBJ, properties=PROPS_C01,
+                                  timeout=3000)
+    global PROPS
+    saved = PROPS
+    PROPS = PROPS_C01
+    try:
+        if quick:
+            graphs = [("c01-one", consts(Tokens='{"t1"}', Acts=fam, MaxH="4", MaxO="2", LoginPins='{"P1", "P2"}')),
+                      ("c01-two", consts(Acts='{"sess", "obj", "find", "attr", "rightpin"}', MaxH="4", MaxO="1",
+                                         LoginPins='{"P1", "P2"}'))]
+            classes = ["aes"]
+        else:
+            graphs = [("c01-one", consts(Tokens='{"t1"}', Acts=fam, MaxH="4", MaxO="2", LoginPins='{"P1", "P2"}')),
+                      ("c01-two", consts(Acts=fam[:-1] + ', "rightpin"}', MaxH="4", MaxO="2", LoginPins='{"P1", "P2"}'))]
+            classes = ["aes", "rsapriv", "rsapub", "secret", "cert"]
+        obs = ["rv", "ss", "oo", "id"]
+        r = run_graphs(ctx, lib, graphs, obs, classes, INV_OBJ, jobs=14)
+        s = run_sim(ctx, lib, "c01-sim", consts(Acts=fam[:-1] + ', "stale"}', MaxH="9", MaxO="5", LoginPins='{"P1", "P2"}'),
+                    300 if quick else 3000, 50 if quick else 80, obs, ["aes", "rsapriv"] if quick else classes,
+                    INV_OBJ, jobs=14)
+    finally:
+        PROPS = saved
+    ctx.coverage.update(dict(
+        states=res.distinct + r["states"], transitions=res.generated + r["transitions"],
+        traces_validated_against_impl=r["accepted"] + s["accepted"],
+        executions=r["executions"] + s["executions"], events_validated=r["events"] + s["events"],
+        model_transitions_replayed=r["edges_replayed"], model_transitions_in_replayed_graphs=r["edges_total"],
+        exhaustive=(r["edges_replayed"] == r["edges_total"]),
+        simulated_behaviours=s["behaviours"], object_classes=classes,
+        entry_points=["C_CreateObject", "C_CopyObject", "C_DestroyObject", "C_GetAttributeValue", "C_SetAttributeValue",
+                      "C_GetObjectSize", "C_FindObjects*", "C_EncryptInit", "C_DecryptInit", "C_SignInit", "C_VerifyInit",
+                      "C_DigestKey", "C_WrapKey (wrapping key)", "C_WrapKey (wrapped key)", "C_UnwrapKey (unwrapping key)",
+                      "C_DeriveKey (base key)", "C_GenerateKey", "C_GenerateKeyPair", "C_UnwrapKey (creator)",
+                      "C_DeriveKey (creator)"],
+        samples=r["samples"][:2],
+        rule="every transition of the bounded MC_Core graph (all login interleavings x object kinds x entry points, "
+             "handles kept across logout/login/close) is executed on the library per concrete key class; TLC "
+             "validates return value class, outputs (canary-filled buffers intact on refusal, no handle), search "
+             "results and the validity of every handle after every call.",
+    ))
+    ctx.assumptions += ["cross-token use of object handles is not generated (outside the property as stated)",
+                        "a permitted use may fail for unrelated reasons; only refusals are demanded, successes are counted"]
+
+
+def c19(ctx):
+    lib = build.libpath(build.build("ossl"))
+    quick = ctx.tier == "quick"
+    T8 = '{{}, {"a"}, {"e"}, {"a", "tok"}, {"priv"}, {"absent"}, {"a", "wrongsize"}, {"pub", "sess"}}'
+    common = dict(LoginPins='{"P1", "P2"}')
+    wide = consts(Acts='{"sess", "obj", "find"}', MaxH="4", MaxO="2" if quick else "3", Labels='{"a", "e"}',
+                  Templates=T8, **common)
+    res, _ = pipeline.model_check(ctx, "MC_Core", "c19-wide", wide, invariants=INV_OBJ, properties=PROPS, timeout=3000)
+    graphs = [
+        ("c19-all1", consts(Tokens='{"t1"}', Acts='{"sess", "obj", "find"}', MaxH="3" if quick else "5", MaxO="2",
+                            Labels='{"a", "e"}', Templates=T8, **common)),
+        ("c19-all2", consts(Acts='{"sess", "obj", "find"}', MaxH="3" if quick else "4", MaxO="2", Labels='{"a", "e"}',
+                            Templates='{{}, {"a"}, {"e"}, {"priv"}}', **common)),
+        ("c19-batch", consts(Tokens='{"t1"}', Acts='{"sess", "obj", "findop"}', MaxH="3" if quick else "4",
+                             MaxO="2" if quick else "3", Templates='{{}, {"a"}}', **common)),
+    ]
+    classes = ["secret"] if quick else ["secret", "cert", "data", "pubkey"]
+    obs = ["rv", "oo", "id"]
+    r = run_graphs(ctx, lib, graphs, obs, classes, INV_OBJ, jobs=14)
+    s = run_sim(ctx, lib, "c19-sim", consts(Acts='{"sess", "obj", "copy", "find", "findop", "make"}', MaxH="10", MaxO="6",
+                                            Labels='{"a", "b", "e"}',
+                                            Templates='{{}, {"a"}, {"b"}, {"e"}, {"a", "tok"}, {"b", "priv"}, {"priv"}, '
+                                                      '{"absent"}, {"a", "wrongsize"}, {"pub", "sess"}, {"pub", "tok", "b"}}',
+                                            **common),
+                300 if quick else 4000, 60 if quick else 100, obs, ["secret"] if quick else ["secret", "cert"],
+                INV_OBJ, jobs=14)
+    ctx.coverage.update(dict(
+        states=res.distinct + r["states"], transitions=res.generated + r["transitions"],
+        traces_validated_against_impl=r["accepted"] + s["accepted"],
+        executions=r["executions"] + s["executions"], events_validated=r["events"] + s["events"],
+        model_transitions_replayed=r["edges_replayed"], model_transitions_in_replayed_graphs=r["edges_total"],
+        exhaustive=(r["edges_replayed"] == r["edges_total"]),
+        simulated_behaviours=s["behaviours"], object_classes=classes,
+        samples=r["samples"][:2],
+        rule="populations of token/session x private/public objects with labels (one of them the empty string) on one "
+             "and two tokens, every login state, templates of 0..3 entries (label, CKA_TOKEN, CKA_PRIVATE, an attribute "
+             "the object lacks, wrong-sized values, the empty value), batch sizes 0,1,2 (and 1,2,3,7 for drained "
+             "searches): every transition of the bounded graphs is executed; TLC checks that the handles returned are "
+             "exactly the visible matching objects, each once, identified through their identity attribute.",
+    ))
+    ctx.assumptions += ["a search is a snapshot taken by C_FindObjectsInit: handles of objects destroyed or hidden "
+                        "afterwards may still be returned (they are invalid and open nothing)"]
